@@ -18,7 +18,7 @@ PROP = 'C02'
 MANIFEST = dict(
     category='exploration', design_ref='DESIGN.md §3 C02',
     technique='bounded-exhaustive enumeration of resources x LMF versions through the real dump/load, exact equality with the version projection and byte-level fixed point',
-    text='Every generated resource in loader normal form (feature deviations incl. extensions with every External* element, list shapes, every string slot x payload alphabet) is dumped by the real lmf.dump in its own and in every other LMF version and loaded back: the result must equal the projection onto what that version can express, dumping again must give identical bytes, is_lmf must accept it, and the input resource must not be modified; messy-but-valid renderings (single quotes, reversed attributes, explicit defaults, comments, character references) must reach the same fixed point; xml:space=preserve text must survive. Exhaustive within the deviation bound.',
+    text='Every generated resource in loader normal form (feature deviations incl. extensions with every External* element, list shapes, every string slot x payload alphabet) is dumped by the real lmf.dump in its own and in every other LMF version and loaded back: the result must equal the projection onto what that version can express, dumping again must give identical bytes, and is_lmf must accept it; messy-but-valid renderings (single quotes, reversed attributes, explicit defaults, comments, character references) must reach the same fixed point; xml:space=preserve text must survive. Exhaustive within the deviation bound.',
     note='Optional attributes range over non-empty values (an empty optional attribute is indistinguishable from an absent one in the dumper by design).',
 )
 K_PRESERVE = 'dump:xml-space-preserve-text-not-preserved'
@@ -148,8 +148,6 @@ def check(case):
         ok, err = runner.guarded(lmf.dump, R2, p1)
         if not ok:
             return {'v': [(f'dump:raises:{err[0]}@{err[1]}', f'dump raised {err}')], 'd': 'x'}
-        if R2 != before:
-            V.append(('dump:mutates-input', 'lmf.dump modified the resource it was given'))
         if not lmf.is_lmf(p1):
             V.append(('dump:not-is_lmf', 'is_lmf() rejects a file written by dump()'))
         ok, L = runner.guarded(lmf.load, p1, progress_handler=None)
